@@ -175,7 +175,9 @@ def run(ck):
     cases = []
 
     def add(det, exp, tag):
-        cases.append({"k": "rule", "id": ck.new_id(), "rule": rule_text(det), "docs": ddocs, "sw": [0],
+        # comparisons written in the condition are also run as optimised by default (shake and matrix
+        # rewrite them): the verdict must still be the mathematical relation
+        cases.append({"k": "rule", "id": ck.new_id(), "rule": rule_text(det), "docs": ddocs, "sw": [0, 15] if tag.startswith("cast_") else [0],
                       "_exp": exp, "_tag": tag})
 
     for c in consts_int(rng, thorough):
@@ -222,10 +224,14 @@ def run(ck):
     for c in cases:
         x = lib.parse_sexp(common.strip_extra(impl[c["id"]]))
         res = None
+        res15 = None
         load = None
         for el in x[1:]:
             if isinstance(el, list) and el and el[0] == "res":
-                res = el[2] if len(el) > 2 else ""
+                if el[1] == "0":
+                    res = el[2] if len(el) > 2 else ""
+                else:
+                    res15 = el[2] if len(el) > 2 else ""
             if isinstance(el, list) and el and el[0] == "load":
                 load = el[1]
         if load != "ok" or res is None or len(res) != len(vals):
@@ -234,6 +240,17 @@ def run(ck):
             direct_failed.add(c["id"])
             continue
         by_tag_results[(c["_tag"], c["rule"])] = res
+        if res15 is not None:
+            ck.count("optimised_form_compared")
+            for v, exp, got, dd in zip(vals, c["_exp"], res15 if len(res15) == len(vals) else "?" * len(vals), c["docs"]):
+                evals += 1
+                if (got == "t") != (exp == "t"):
+                    if c["id"] not in direct_failed and len(direct_failed) < 4:
+                        ck.violation({"property": "C09", "kind": "direct",
+                                      "what": "as optimised by default a comparison of the condition differs from the mathematical relation",
+                                      "form": c["_tag"], "rule": c["rule"], "doc": dd, "expected": exp, "crate_optimised": got,
+                                      "replay_case": {"k": "rule", "id": 1, "rule": c["rule"], "docs": [dd], "sw": [15]}})
+                    direct_failed.add(c["id"])
         for v, exp, got, dd in zip(vals, c["_exp"], res, ddocs):
             evals += 1
             ck.count("form:" + c["_tag"].split(":")[0])
